@@ -3,18 +3,18 @@
 (* pubsub.Queue (/repo/pubsub/queue.go) for property C20.                      *)
 (*                                                                            *)
 (*   Iters      each runs successive calls of the closure returned by         *)
-(*              Queue.Producer (queue.go:366-393), cursor `next` (here cur)   *)
-(*   Producers  run BlockingAdd (queue.go:137-169); they wait on the same     *)
+(*              Queue.Producer (queue.go:372-399), cursor `next` (here cur)   *)
+(*   Producers  run BlockingAdd (queue.go:139-171); they wait on the same     *)
 (*              condition variable (nupdates) as the iterators                *)
 (*   helpers    the per-wait goroutine `<-ctx.Done(); lock; Broadcast()` of   *)
-(*              unsafeWaitForLink / BlockingAdd (queue.go:238, 153) and the   *)
+(*              unsafeWaitForLink / BlockingAdd (queue.go:242, 155) and the   *)
 (*              `defer cancel()` that fires it when the wait returns          *)
 (*   External   Add, Remove, Close (one critical section each), the start of  *)
 (*              a call, the cancellation of a call's context                  *)
 (*                                                                            *)
 (* The list is modelled as it is: entry 0 is the sentinel (q.front), entry n  *)
 (* is the n-th item added, link[n] is entry.link (Nil = nil pointer), `back`  *)
-(* is q.back.  popFront (queue.go:274-285) unlinks the first entry from the   *)
+(* is q.back.  popFront (queue.go:278-290) unlinks the first entry from the   *)
 (* sentinel, leaves the removed entry's own link untouched and resets back    *)
 (* to the sentinel when the queue becomes empty: an entry removed while it    *)
 (* was the newest keeps link = nil for ever.                                  *)
@@ -37,7 +37,7 @@
 (* tracker is reduced to `cap` (the soft quota BlockingAdd compares with the  *)
 (* length; a burst Add raises it to the new length as tracker.add does) -     *)
 (* whether an Add is admitted is C05's subject, here every external Add that  *)
-(* happens is an admitted one; `next.link == q.front` (queue.go:376) is dead  *)
+(* happens is an admitted one; `next.link == q.front` (queue.go:382) is dead  *)
 (* code (no link ever points to the sentinel) and is not modelled; nempty is  *)
 (* not modelled (nobody waits on it here).                                    *)
 (***************************************************************************)
@@ -79,7 +79,7 @@ Sig == IF waitq = <<>> THEN <<waitq, woken>> ELSE <<Tail(waitq), woken \cup {Hea
 Bc  == <<(<<>>), woken \cup SeqToSet(waitq)>>
 Notify(w) == waitq' = w[1] /\ woken' = w[2]
 
-\* doAdd (queue.go:109-131): link the new entry behind q.back, notify nupdates
+\* doAdd (queue.go:110-133): link the new entry behind q.back, notify nupdates
 DoAdd == /\ link' = [link EXCEPT ![back] = nadded + 1] /\ back' = nadded + 1 /\ nadded' = nadded + 1
          /\ cap' = IF len >= cap THEN len + 1 ELSE cap          \* tracker.add: a burst raises the soft quota
          /\ Notify(IF AddBroadcasts THEN Bc ELSE Sig)
@@ -104,7 +104,7 @@ Add == /\ budget > 0 /\ mu = Free /\ ~closed /\ nadded + Adding < MaxAdds
        /\ budget' = budget - 1 /\ DoAdd
        /\ UNCHANGED <<mu, pc, cur, head, done, armed, due, hvars>>
 
-\* Remove -> popFront (queue.go:174-182, 274-285); a removal after an iterator's first call is a
+\* Remove -> popFront (queue.go:176-184, 278-290); a removal after an iterator's first call is a
 \* concurrent removal for that iterator
 Remove == /\ AllowRemove /\ budget > 0 /\ mu = Free /\ len > 0 /\ budget' = budget - 1
           /\ LET e == link[0] IN
@@ -132,7 +132,7 @@ Advance(i, c) == /\ cur' = [cur EXCEPT ![i] = link[c]]
                  /\ yields' = [yields EXCEPT ![i] = Append(@, link[c])]
                  /\ Ret(i, "item")
 
-\* queue.go:369-391.  lock; if next == nil { next = q.front }; a successor exists -> advance and return in
+\* queue.go:374-397.  lock; if next == nil { next = q.front }; a successor exists -> advance and return in
 \* the same critical section.  Otherwise (OneSection) enter unsafeWaitForLink holding the lock; or
 \* (as-is) report EOF when closed, else unlock and go on to waitForNew through the unlocked window.
 IEnter(i) ==
@@ -150,7 +150,7 @@ IEnter(i) ==
                             ELSE pc' = [pc EXCEPT ![i] = "window"] /\ UNCHANGED last
   /\ UNCHANGED <<qvars, waitq, woken, head, done, due, calls, started, tainted, budget>>
 
-\* unsafeWaitForLink (queue.go:235-255): for e.link == nil { closed -> ErrQueueClosed; ctx.Done -> ctx.Err();
+\* unsafeWaitForLink (queue.go:238-259): for e.link == nil { closed -> ErrQueueClosed; ctx.Done -> ctx.Err();
 \* default -> nupdates.Wait() }; then back in the producer: advance
 ILoop(i) ==
   /\ OneSection /\ pc[i] = "loop" /\ mu = i
@@ -184,7 +184,7 @@ IAfter(i) ==
      ELSE Advance(i, cur[i])
   /\ UNCHANGED <<qvars, mu, waitq, woken, head, done, armed, due, calls, started, tainted, base, budget>>
 
-\* BlockingAdd (queue.go:137-169)
+\* BlockingAdd (queue.go:139-171)
 PEnter(p) ==
   /\ pc[p] = "enter" /\ mu = Free
   /\ IF closed THEN Ret(p, "closed") /\ UNCHANGED <<qvars, mu, waitq, woken, armed>>
